@@ -82,6 +82,10 @@ type c19DumpCase struct {
 	// second row of the input) and what the dump printed is also read from the SCREEN: every
 	// line of it must still be there once the prompt and the line have been redisplayed
 	Wrapped bool
+	// Rebind (sequence, action): the dump is run once, the application then changes this binding of
+	// the dumped keymap through Config.Bind, the call is accepted, and the dump that is judged is
+	// the one of the NEXT call of the same Shell (it must show the configuration as it is then)
+	Rebind []string `json:",omitempty"`
 }
 
 func c19DumpJob(cs *c19DumpCase) harness.Job {
@@ -102,6 +106,17 @@ func c19DumpJob(cs *c19DumpCase) harness.Job {
 		return harness.Job{Cfg: harness.Config{RC: rc, W: 200, H: 50, Prompt: "> ", NoHist: true}, Calls: [][]harness.Answer{append(keys, harness.Answer{End: true})},
 			Want: harness.Want{Raw: true, Screen: 1}}
 	}
+	if len(cs.Rebind) == 2 {
+		km := "emacs"
+		if cs.Vi {
+			km = "vi-command"
+		}
+		cfg := harness.Config{RC: rc + "\"\\C-x\\C-]r\": verif-rebind\n", W: 200, H: 50, Prompt: "> ", NoHist: true,
+			Probes: []harness.Probe{{Name: "verif-rebind", Kind: "bind", Arg: km + "\x00" + inputrc.Unescape(cs.Rebind[0]) + "\x00" + cs.Rebind[1]}}}
+		first := append(append([]harness.Answer{}, keys...), Keys("\x18\x1dr", "\r")...)
+		second := append(append([]harness.Answer{}, keys...), harness.Answer{End: true})
+		return harness.Job{Cfg: cfg, Calls: [][]harness.Answer{first, second}, Want: harness.Want{Raw: true, SkipScreen: true}}
+	}
 	return harness.Job{Cfg: harness.Config{RC: rc, W: 200, H: 50, Prompt: "> ", NoHist: true}, Calls: [][]harness.Answer{append(keys, harness.Answer{End: true})},
 		Want: harness.Want{Raw: true, SkipScreen: true}}
 }
@@ -114,10 +129,20 @@ func c19DumpVerdict(c *Ctx, cs *c19DumpCase, t *harness.Trace) (fp, what string)
 	}
 	text := c19DumpText(call.Raw)
 	rc := cs.RC + "\"\\C-x\\C-]f\": dump-functions\n\"\\C-x\\C-]v\": dump-variables\n\"\\C-x\\C-]m\": dump-macros\n"
+	if len(cs.Rebind) == 2 {
+		rc += "\"\\C-x\\C-]r\": verif-rebind\n"
+	}
 	ref, commands := c19DriverConfig(c, rc)
 	km := "emacs"
 	if cs.Vi {
 		km = "vi-command"
+	}
+	if len(cs.Rebind) == 2 {
+		if len(t.Calls) < 2 {
+			return "", "not judged: the first call did not return (" + t.Calls[0].Outcome + ")"
+		}
+		ref.Bind(km, inputrc.Unescape(cs.Rebind[0]), cs.Rebind[1], false)
+		commands["verif-rebind"] = func() {}
 	}
 	// parse the dump back into an empty configuration
 	back := inputrc.NewConfig()
@@ -286,6 +311,9 @@ func c19DumpCases() []c19DumpCase {
 		out = append(out, c19DumpCase{Name: tag + "/defaults/macros", RC: mode, Which: "macros", Vi: vi})
 		out = append(out, c19DumpCase{Name: tag + "/two macros, cursor on the second row of the input", RC: mode + "\"\\C-xq\": \"hello\"\n\"\\C-xr\": \"world\"\n", Which: "macros", Vi: vi, Wrapped: true})
 		out = append(out, c19DumpCase{Name: tag + "/defaults/variables", RC: mode, Which: "variables", Vi: vi})
+		// the configuration changes between two dumps of the same keymap (a default sequence rebound, a new one bound)
+		out = append(out, c19DumpCase{Name: tag + "/second dump after C-t was rebound at run time", RC: mode, Which: "functions", Vi: vi, Rebind: []string{`\C-t`, "end-of-line"}})
+		out = append(out, c19DumpCase{Name: tag + "/second dump after a new sequence was bound at run time", RC: mode, Which: "functions", Vi: vi, Rebind: []string{`\C-x\C-]q`, "forward-char"}})
 		for _, s := range c19Seqs {
 			out = append(out, c19DumpCase{Name: tag + "/bind " + s, RC: mode + "\"" + s + "\": forward-char\n", Which: "functions", Vi: vi})
 			out = append(out, c19DumpCase{Name: tag + "/macro-on " + s, RC: mode + "\"" + s + "\": \"xyz\"\n", Which: "macros", Vi: vi})
